@@ -48,3 +48,45 @@ Proof.
   { pose proof (fp_le_store _ _ _ _ Hr). unfold sw. lia. }
   unfold d. fold sw in Hi, Hn |- *. rewrite Hi, Hn. split; [eapply rep_nodup; eauto|reflexivity].
 Qed.
+
+(* ---------------------------------------------------------------- the value-level operation touches only its target *)
+
+Lemma v_mutate_other ts i r k : i <> k -> nth_error (fst (v_mutate ts i r)) k = nth_error ts k.
+Proof. intros Hne. destruct r as [(b' & o)| |]; cbn [v_mutate fst]; [now apply nth_set_nth_ne|reflexivity|reflexivity]. Qed.
+
+Lemma vexec_prim_other ts x k :
+  target x <> Some k -> (k < length ts)%nat -> nth_error (fst (vexec_prim ts x)) k = nth_error ts k.
+Proof.
+  intros Hne Hk. destruct x; cbn [vexec_prim target] in *; try reflexivity.
+  - destruct (Z.to_nat t <? 3)%nat; cbn [fst]; [reflexivity|now apply nth_error_app1].
+  - unfold v_with. destruct (nth_error ts (Z.to_nat ti)); [|reflexivity]. apply v_mutate_other. congruence.
+  - unfold v_with. destruct (nth_error ts (Z.to_nat ti)); [|reflexivity]. apply v_mutate_other. congruence.
+  - unfold v_with. destruct (nth_error ts (Z.to_nat ti)); [|reflexivity]. cbn [fst]. apply nth_set_nth_ne. congruence.
+  - unfold v_with. destruct (nth_error ts (Z.to_nat ti)); [|reflexivity].
+    destruct (b_immut b); cbn [fst]; [now apply nth_error_app1|reflexivity].
+Qed.
+
+Lemma vexec_prim_length ts ti k ex m : length (fst (vexec_prim ts (SDel ti k ex m))) = length ts.
+Proof.
+  cbn [vexec_prim]. unfold v_with. destruct (nth_error ts (Z.to_nat ti)); [|reflexivity].
+  match goal with |- context [v_mutate ts ?i ?r] => destruct r as [(b' & o)| |] end; cbn [v_mutate fst];
+    [apply length_set_nth|reflexivity|reflexivity].
+Qed.
+
+Lemma v_clear_other ti k : Z.to_nat ti <> k -> forall fuel ts, (k < length ts)%nat ->
+  nth_error (v_clear fuel ts ti) k = nth_error ts k.
+Proof.
+  intros Hne. induction fuel as [|f IH]; intros ts Hk; [reflexivity|]. cbn [v_clear].
+  destruct (v_first ts ti) as [e|]; [|reflexivity].
+  rewrite IH by (now rewrite vexec_prim_length). apply vexec_prim_other; [cbn [target]; congruence|assumption].
+Qed.
+
+Theorem vexec_other_proof ts x k :
+  target x <> Some k -> (k < length ts)%nat -> nth_error (fst (vexec ts x)) k = nth_error ts k.
+Proof.
+  intros Hne Hk. destruct x; cbn [vexec]; try (now apply vexec_prim_other).
+  - destruct (v_lookup ts ti k0); [|reflexivity]. apply vexec_prim_other; [cbn [target] in *; congruence|assumption].
+  - destruct (v_first ts ti); [|reflexivity]. apply vexec_prim_other; [cbn [target] in *; congruence|assumption].
+  - cbn [fst]. apply v_clear_other; [cbn [target] in Hne; congruence|assumption].
+  - destruct (v_lookup ts ti k0); [reflexivity|]. apply vexec_prim_other; [cbn [target] in *; congruence|assumption].
+Qed.
